@@ -130,6 +130,23 @@ Example C04_same_as_recursion :
   = ev0 2500 "(defun f (n &optional acc &rest r) (cond ((< n 1) (list acc r)) (t (funcall 'f (- n 1) (+ (if acc acc 0) n) n r)))) (list (f 200) (funcall 'f 3 1) (mapcar 'f '(1 2)))".
 Proof. vm_compute. reflexivity. Qed.
 
+(* REFUTED for tail calls inside let / let* (defect D35, known finding).  The  *)
+(* full statement "identical to ordinary recursive evaluation of the same      *)
+(* definition" fails: the rewritten tail call leaves the let before the next    *)
+(* activation runs, ordinary recursion runs the callee inside it, and tulisp    *)
+(* variables are dynamically scoped.  The witness, replayed on the              *)
+(* implementation, is the finding; the simulation theorem above is therefore    *)
+(* stated against recursion on the marker, which leaves the let as well.        *)
+Theorem C04_identical_to_recursion_refuted :
+  exists rewritten ordinary : string,
+    ev0 300 rewritten = Ok (Int 0) /\ ev0 300 ordinary = Ok (Int 1).
+Proof.
+  exists "(setq m 0) (defun f (n) (if (< n 1) m (let ((m n)) (f (- n 1))))) (f 3)",
+         "(setq m 0) (defun f (n) (if (< n 1) m (let ((m n)) (funcall 'f (- n 1))))) (f 3)".
+  split; vm_compute; reflexivity.
+Qed.
+Print Assumptions C04_identical_to_recursion_refuted.
+
 (* non-vacuity of the simulation: a stored definition, five nested activations, *)
 (* every hypothesis of C04_trampoline_is_recursion holds                           *)
 Definition st1 : st :=
